@@ -229,3 +229,152 @@ Example C17_example_float_contract :
       flt (fl a) (fl b) = qltb a b /\ fle (fl a) (fl b) = qleb a b /\ feq (fl a) (fl b) = qeqb a b.
 Proof. exact example_float_contract. Qed.
 Print Assumptions C17_example_float_contract.
+
+(* ================================================================ round 3 *)
+(* ---- index / find / `in` / accept[key] / accept[i] / quality: all read off the first matching item
+   of the sorted list (j is its position; nothing before it matches) *)
+Theorem C17_accessors : forall value_matches mb k,
+  (forall r, value_matches k r = Ok (mb k r)) -> forall acc,
+  match first (matching mb k) acc with
+  | Some it =>
+      exists j, nth_error acc j = Some it /\ mb k (fst it) = true
+        /\ (forall j' it', (j' < j)%nat -> nth_error acc j' = Some it' -> mb k (fst it') = false)
+        /\ index value_matches acc k = Ok j
+        /\ find value_matches acc k = Ok (Z.of_nat j)
+        /\ contains value_matches acc k = Ok true
+        /\ quality value_matches acc k = Ok (snd it)
+        /\ getitem_str value_matches acc k = Ok (snd it)
+        /\ getitem_int acc (Z.of_nat j) = Ok it
+  | None =>
+      index value_matches acc k = Err ValueError
+      /\ find value_matches acc k = Ok (-1)%Z
+      /\ contains value_matches acc k = Ok false
+      /\ quality value_matches acc k = Ok quality_default
+      /\ getitem_str value_matches acc k = Ok quality_default
+  end.
+Proof. exact accessors_agree. Qed.
+Print Assumptions C17_accessors.
+
+(* x in accept <-> index(x) does not raise <-> find(x) >= 0;  quality(x) > 0 implies them;
+   accept[index(x)] carries quality(x) *)
+Theorem C17_access_consistency : forall value_matches mb k acc,
+  (forall r, value_matches k r = Ok (mb k r)) ->
+  (contains value_matches acc k = Ok true <-> exists j, index value_matches acc k = Ok j) /\
+  (contains value_matches acc k = Ok true <-> exists j, find value_matches acc k = Ok (Z.of_nat j)) /\
+  (contains value_matches acc k = Ok false <-> index value_matches acc k = Err ValueError) /\
+  (contains value_matches acc k = Ok false <-> find value_matches acc k = Ok (-1)%Z) /\
+  (forall q, quality value_matches acc k = Ok q -> qltb zero q = true -> contains value_matches acc k = Ok true) /\
+  (forall j, index value_matches acc k = Ok j ->
+     exists it, getitem_int acc (Z.of_nat j) = Ok it /\ quality value_matches acc k = Ok (snd it)
+                /\ getitem_str value_matches acc k = Ok (snd it)).
+Proof. exact access_consistency. Qed.
+Print Assumptions C17_access_consistency.
+
+(* the converse of the quality clause is false: a;q=0 is `in` the object with quality 0 *)
+Theorem C17_contains_implies_positive_refuted :
+  exists value acc k,
+    parse_accept FBase value = Ok acc /\ contains base_value_matches acc k = Ok true
+    /\ find base_value_matches acc k = Ok 0%Z /\ quality base_value_matches acc k = Ok (0%Z, 0).
+Proof. exact contains_not_positive. Qed.
+Print Assumptions C17_contains_implies_positive_refuted.
+
+(* ---- best_match(matches, default): the default comes back exactly when the negotiation (C17_optimal,
+   C17_language_fallback) answers None, i.e. when no offer has a positive quality *)
+Theorem C17_default : forall tbl f value acc offers d,
+  parse_accept f value = Ok acc -> offers_valid f offers ->
+  exists res, family_best_match tbl f acc offers = Ok res /\
+    family_best_match_default tbl f acc offers d = Ok (match res with Some o => Some o | None => d end).
+Proof. exact best_match_default_spec. Qed.
+Print Assumptions C17_default.
+
+(* ---- the choice is unique; ties go to the first offer of the SERVER's list; the CLIENT's order among
+   the header items plays no role *)
+Theorem C17_choice_unique : forall specificity mb items offers r r',
+  choice specificity mb items offers r -> choice specificity mb items offers r' -> r = r'.
+Proof. exact choice_unique. Qed.
+Print Assumptions C17_choice_unique.
+
+Theorem C17_tie_first_offer : forall specificity mb items offers o,
+  choice specificity mb items offers (Some o) ->
+  exists pre post s q, offers = pre ++ o :: post /\ is_Q specificity mb items o s q /\
+    forall o' s' q', In o' pre -> is_Q specificity mb items o' s' q' ->
+      ~ (qleb q q' = true /\ (qeqb q' q = true -> spec_leb s s' = true)).
+Proof. exact tie_first_offer. Qed.
+Print Assumptions C17_tie_first_offer.
+
+Theorem C17_client_order_irrelevant : forall specificity value_matches mb items items' offers,
+  (forall o r, In o offers -> value_matches o r = Ok (mb o r)) ->
+  Permutation items items' ->
+  best_match specificity value_matches (mk_accept specificity items) offers
+  = best_match specificity value_matches (mk_accept specificity items') offers.
+Proof. exact client_order_irrelevant. Qed.
+Print Assumptions C17_client_order_irrelevant.
+
+(* ---- MIMEAccept.accept_json / accept_xhtml / accept_html (bodies regenerated from the source):
+   true iff some client range matches the type(s) - in terms of is_Q *)
+Theorem C17_accept_convenience : forall value acc,
+  parse_accept FMime value = Ok acc ->
+  exists items, accept_items value = Ok items /\
+    (accept_json acc = true <-> matched items s_app_json) /\
+    (accept_xhtml acc = true <-> matched items s_app_xhtml \/ matched items s_app_xml) /\
+    (accept_html acc = true <-> matched items s_text_html \/ matched items s_app_xhtml \/ matched items s_app_xml).
+Proof. exact convenience_spec. Qed.
+Print Assumptions C17_accept_convenience.
+
+(* ... which is weaker than acceptable: application/json;q=0 gives accept_json = True *)
+Theorem C17_accept_json_positive_refuted :
+  exists value acc, parse_accept FMime value = Ok acc /\ accept_json acc = true /\ accept_html acc = false
+                    /\ quality mime_matches acc s_app_json = Ok (0%Z, 0).
+Proof. exact accept_json_not_positive. Qed.
+Print Assumptions C17_accept_json_positive_refuted.
+
+(* ---- Request.accept_mimetypes / accept_charsets / accept_encodings / accept_languages read the header and
+   use the class they should (table regenerated from sansio/request.py) *)
+Theorem C17_request_glue_pinned : glue_eqb request_accept_glue expected_request_glue = true.
+Proof. exact request_glue_pinned. Qed.
+Print Assumptions C17_request_glue_pinned.
+
+(* ---- RFC 9110 q-values: all 1117 spellings ( 0 [ . 0*3DIGIT ] ) / ( 1 [ . 0*3(0) ] ) are accepted with a value
+   in [0, 1], except the two that end in a bare dot (0. and 1.), which the code's grammar rejects *)
+Theorem C17_rfc_qvalues : (length rfc_qvalues = 1117)%nat /\ forallb rfc_qvalue_ok rfc_qvalues = true.
+Proof. exact rfc_qvalues_sweep. Qed.
+Print Assumptions C17_rfc_qvalues.
+
+(* the converse is false: 0.12345, 01 and -0 are accepted as well *)
+Theorem C17_q_only_rfc_refuted :
+  exists s1 s2 s3 q1 q2 q3,
+    parse_q s1 = Some q1 /\ parse_q s2 = Some q2 /\ parse_q s3 = Some q3 /\
+    q_out_of_range q1 = false /\ q_out_of_range q2 = false /\ q_out_of_range q3 = false /\
+    existsb (list_eqb s1) rfc_qvalues = false /\ existsb (list_eqb s2) rfc_qvalues = false
+    /\ existsb (list_eqb s3) rfc_qvalues = false.
+Proof. exact q_grammar_wider. Qed.
+Print Assumptions C17_q_only_rfc_refuted.
+
+(* ---- codecs.lookup as a contract (Section CodecContract): for ANY lookup that ignores ASCII letter case and
+   whose canonical names are lower-case fixpoints, charset matching does not depend on the spelling of the
+   offer (case, alias vs canonical name), and offers resolving to the same codec are matched alike *)
+Theorem C17_charset_contract : forall lookup : str -> option str,
+  (forall n, lookup (lower n) = lookup n) ->
+  (forall n c, lookup n = Some c -> lookup c = Some c /\ lower c = c) ->
+  (forall o r, charset_rule (normalize lookup) (lower o) r = charset_rule (normalize lookup) o r /\
+               charset_rule (normalize lookup) (normalize lookup o) r = charset_rule (normalize lookup) o r) /\
+  (forall o o' c r, lookup o = Some c -> lookup o' = Some c ->
+     charset_rule (normalize lookup) o r = charset_rule (normalize lookup) o' r).
+Proof. exact (fun l h1 h2 => conj (charset_offer_spelling l h1 h2) (charset_alias l)). Qed.
+Print Assumptions C17_charset_contract.
+
+Example C17_example_q_spellings :
+  hdr [97; 59; 113; 61; 49; 46; 48; 48; 48] = Ok [([97], (1000%Z, 3))] /\
+  hdr [97; 59; 81; 61; 48; 46; 53] = Ok [([97], (5%Z, 1))] /\
+  hdr [97; 32; 59; 32; 113; 61; 48; 46; 53] = Ok [([97], (5%Z, 1))] /\
+  hdr [97; 59; 113; 61; 34; 48; 46; 53; 34] = Ok [([97], (5%Z, 1))] /\
+  hdr [97; 59; 113; 61; 48; 46; 49; 50; 51; 52; 53] = Ok [([97], (12345%Z, 5))] /\
+  hdr [97; 59; 113; 61; 48; 49] = Ok [([97], (1%Z, 0))] /\
+  hdr [97; 59; 113; 61; 46; 53] = Ok [] /\
+  hdr [97; 59; 113; 61; 49; 46] = Ok [] /\
+  hdr [97; 59; 113; 61; 49; 46; 48; 48; 49] = Ok [] /\
+  hdr [97; 59; 113; 61; 45; 49] = Ok [] /\
+  hdr [97; 59; 113; 32; 61; 48; 46; 53] = Ok [([97], (1%Z, 0))] /\
+  hdr [97; 59; 113; 61; 32; 48; 46; 53] = Ok [([97], (1%Z, 0))].
+Proof. exact example_q_spellings. Qed.
+Print Assumptions C17_example_q_spellings.
